@@ -621,7 +621,9 @@ def fold(v):
             return ('ite', c, x, y)
         # `if r then (if q then v else T) else T`  ==  `if r ∧ q then v else T`  (a test nested in a guard
         # whose continuation is the same on both sides, as produced by path-splitting `if (r) { if (q) info = v; }`)
-        if x[0] == 'ite' and x[3] == y: return ('ite', ('bin', '&&', c, x[1]), x[2], y)
+        if x[0] == 'ite' and x[3] == y: return fold(('ite', ('bin', '&&', c, x[1]), x[2], y))
+        # two consecutive tests with the same outcome: `if c1 then v else if c2 then v else r` == `if c1 ∨ c2 then v else r`
+        if y[0] == 'ite' and y[2] == x and x[0] == 'int': return ('ite', ('bin', '||', c, y[1]), x, y[3])
         return ('ite', c, x, y)
     if t == 'cond': return ('cond', fold(v[1]), fold(v[2]), fold(v[3]))
     if t == 'neg': return ('neg', fold(v[1]))
